@@ -223,6 +223,8 @@ const ALPHA_QUICK: &[(&str, &str)] = &[
     ("d/\u{e9}.md", ""),
     ("d/h/f g.md", ""),
     ("n.md.md", ""),
+    // a dot inside the file stem (dates, versions)
+    ("v1.2.md", ""),
     ("x.txt", "X"),
     ("d/y.png", "B"),
     (".iwe/config.toml", "CD"),
@@ -232,6 +234,8 @@ const ALPHA_QUICK: &[(&str, &str)] = &[
 const ALPHA_MORE: &[(&str, &str)] = &[
     ("\u{fc} \u{df}/\u{f6}.md", ""),
     ("d/a.md", ""),
+    ("2024.01/p.md", ""),
+    ("v1.md", ""),
     ("z.md/k.md", ""),
     ("k0.md", "T0"),
     ("empty.md", "TE"),
